@@ -1,0 +1,33 @@
+//go:build verif
+
+package service
+
+import (
+	"github.com/ludo-technologies/pyscn/domain"
+	"github.com/ludo-technologies/pyscn/internal/analyzer"
+)
+
+// Exports for the reproducibility (C05) checks of the verification driver.
+// Nothing here is compiled without the "verif" build tag.
+
+// VerifSortFunctions runs the complexity service's sortFunctions.
+func VerifSortFunctions(functions []domain.FunctionComplexity, sortBy domain.SortCriteria) []domain.FunctionComplexity {
+	return NewComplexityService().sortFunctions(functions, sortBy)
+}
+
+// VerifSortClasses runs the CBO service's sortClasses and the top-10 cut of generateSummary.
+func VerifSortClasses(classes []domain.ClassCoupling, sortBy domain.SortCriteria) ([]domain.ClassCoupling, []domain.ClassCoupling) {
+	s := NewCBOService()
+	sorted := s.sortClasses(classes, sortBy)
+	return sorted, s.generateSummary(classes, 1, domain.CBORequest{}).MostCoupledClasses
+}
+
+// VerifLongestChains runs findLongestChains.
+func VerifLongestChains(graph *analyzer.DependencyGraph, limit int) []domain.DependencyPath {
+	return NewSystemAnalysisService().findLongestChains(graph, limit)
+}
+
+// VerifCouplingResult runs extractCouplingResult (the service-level sums).
+func VerifCouplingResult(graph *analyzer.DependencyGraph) *analyzer.SystemMetrics {
+	return NewSystemAnalysisService().extractCouplingResult(graph)
+}
